@@ -119,7 +119,11 @@ def main():
         return rc
 
     global SCRATCH
-    SCRATCH = tempfile.mkdtemp(prefix="vcheck-")
+    # job files live under /verif/.scratch (git-ignored, removed after the run), not under /tmp:
+    # a run must not depend on anything in /tmp surviving while it works
+    scratch_root = os.path.join(VERIF, ".scratch")
+    os.makedirs(scratch_root, exist_ok=True)
+    SCRATCH = tempfile.mkdtemp(prefix="vcheck-", dir=scratch_root)
     try:
         return _check(args)
     finally:
